@@ -281,18 +281,31 @@ pub fn run(ctx: &Ctx) -> i32 {
                 order.push(Some(si));
             }
         }
-        let in_subdir = rng.chance(1, 4);
+        let in_subdir = rng.chance(1, 3);
         let twice = rng.chance(1, 4);
+        // the sub-directory may carry a name that project tools treat specially, next to their manifest files
+        let subdir_name = rng.ps(&["inner", "lib", "node_modules", "test", "out", "inner", "script"]);
         if in_subdir {
-            std::fs::create_dir_all(format!("{}/inner", root)).unwrap();
+            std::fs::create_dir_all(format!("{}/{}", root, subdir_name)).unwrap();
+            if rng.chance(1, 2) {
+                for m in ["foundry.toml", "package.json", "remappings.txt", "hardhat.config.js"] {
+                    std::fs::write(format!("{}/{}", root, m), b"{}\n").unwrap();
+                }
+                acc.cov("directory:project-manifests-next-to-the-sub-directory");
+            }
         }
         for (j, o) in order.iter().enumerate() {
             match o {
                 None => {
-                    let d = if in_subdir { format!("{}/inner", root) } else { root.clone() };
+                    let d = if in_subdir { format!("{}/{}", root, subdir_name) } else { root.clone() };
                     std::fs::write(format!("{}/Probe.sol", d), &fs.texts[fi]).unwrap();
                     if twice {
-                        std::fs::write(format!("{}/ProbeCopy.sol", root), &fs.texts[fi]).unwrap();
+                        // a second name for the same content: an independent copy, or a hard link (same inode)
+                        if rng.chance(1, 2) && std::fs::hard_link(format!("{}/Probe.sol", d), format!("{}/ProbeCopy.sol", root)).is_ok() {
+                            acc.cov("directory:second-name-is-a-hard-link");
+                        } else {
+                            std::fs::write(format!("{}/ProbeCopy.sol", root), &fs.texts[fi]).unwrap();
+                        }
                     }
                 }
                 Some(si) => {
